@@ -745,7 +745,9 @@ static int write_loop_start(cif_loop_tp *loop, void *context) {
                             result = cif_validate_cif11_characters(*next_name, NULL);
                         }
                         if (result == CIF_TRAVERSE_CONTINUE) {
-                            if (u_fprintf(CONTEXT_UFILE(context), " %S\n", *next_name) < 4) {
+                            /* names are indented by one space, except those that fill the whole line */
+                            if (u_fprintf(CONTEXT_UFILE(context),
+                                    ((u_strlen(*next_name) < LINE_LENGTH(context)) ? " %S\n" : "%S\n"), *next_name) < 4) {
                                 result = CIF_ERROR;
                             }
                             SET_LAST_COLUMN(context, 0);
